@@ -20,6 +20,10 @@ class Field:
     _isFeField = True
     """marks the class for :mod:`._linalg`, which cannot import it without a cycle"""
 
+    __array_ufunc__ = None
+    """a numpy array on the left of an operator defers to the reflected methods below (numpy would
+    otherwise broadcast the Field as a scalar object and return an array of objects)"""
+
     def __init__(
         self,
         groupElem: _GroupElem,
@@ -130,7 +134,7 @@ class Field:
         return self() @ other
 
     def __rmatmul__(self, other) -> FeArray.FeArrayALike:
-        return self.__matmul__(other)
+        return other @ self()
 
     def __add__(self, other) -> FeArray.FeArrayALike:
         return self() + other
